@@ -2,6 +2,9 @@
 (* Trace validation for ADWIN / ADWINAccuracy: update(x) with mean(), variance(), recs, counters;
    the window length is private and logged as -1 when unreadable. *)
 EXTENDS Adwin, TraceLib
+(* the variance is accumulated in floating point: besides the relative tolerance of Close an absolute error of 1e-8 * mean^2 is
+   admitted (cancellation noise for data of large magnitude, e.g. a constant window of values around 1e9) *)
+VarClose(v, w, m) == Close(v, w) \/ ~DefGt(NAbs(NSub(v, w)), NMul("1e-8", NAdd(NMul(m, m), "1")))
 tvars == <<adwinvars, tid, l>>
 Init == /\ tid \in 1..NTr /\ l = 1 /\ InitWith(Traces[tid].cfg)
 Counters == /\ Chk("total", total', Ev.total) /\ Chk("since", since', Ev.since) /\ Chk("state", st', Ev.state)
@@ -10,7 +13,7 @@ Update == /\ More /\ Ev.op = "update" /\ Ev.raised = "None"
           /\ Step(Ev.x) /\ Counters
           /\ (Ev.w = -1 \/ Chk("window", Len(win'), Ev.w))
           /\ ChkB("mean", Close(Mean', Ev.mean), <<Mean', Ev.mean>>)
-          /\ ChkB("variance", Close(Variance', Ev.variance), <<Variance', Ev.variance>>)
+          /\ ChkB("variance", VarClose(Variance', Ev.variance, Mean'), <<Variance', Ev.variance>>)
           /\ Adv
 UserReset == /\ More /\ Ev.op = "reset" /\ Reset /\ Counters /\ Adv
 Refused == /\ More /\ Ev.op = "bad" /\ Ev.raised = "ValueError" /\ (UNCHANGED adwinvars \/ PendingReset) /\ Counters /\ Adv
